@@ -12,7 +12,7 @@
 3. spec -> code: for every pair of lengths of TLC's box (80^2 | 300^2, always with every pair whose padded
    size is odd) the exported padded size / 'same' offset place the expected impulse; the real convolve is run
    on a partial basis (x = identity, a few kernels; a few signals, w = identity); exported helper outputs are
-   compared with the real fscale / ns_optim_fft / fexpand.
+   compared with the real fscale / ns_optim_fft.
 Numeric clauses decided by projection: sample == 0 / == 1 to 1e-9 for impulses; dense random inputs vs
 np.convolve, expand(reduce(fft)) = fft, lp + hp = Id, bp = hp o lp, dft / dft2 vs fft / fft2 (1e-9 relative),
 fcn_cosine monotone from 0 to 1.
@@ -473,9 +473,10 @@ def run(ctx):
     recs += [nsoptim_record(n) for n in ns_list]
     for n in list(range(1, 81 if ctx.quick else 301)) + [729, 1024]:
         recs.append(fscale_record(n, [1, 0.5, 2, 0.25][n % 4]))
-    for n in list(range(1, 41 if ctx.quick else 101)) + [81, 243]:
-        recs.append(maps_record(n, (), 0, use_default_axis=True))
-        recs.append(maps_record(n, (3,), [0, 1, -1, -2][n % 4]))
+    for n in list(range(1, 81 if ctx.quick else 301)) + [729, 1024]:
+        recs.append(maps_record(n, (), 0, use_default_axis=(n % 2 == 0)))
+        if n <= (40 if ctx.quick else 100) or n in (81, 243):
+            recs.append(maps_record(n, (3,), [0, 1, -1, -2][n % 4]))
         if n <= 30:
             recs.append(maps_record(n, (2, 3), [0, 1, 2, -1, -2, -3][n % 6]))
     for n in range(2, 41 if ctx.quick else 121):
@@ -489,12 +490,15 @@ def run(ctx):
             ctx._distinct.add((r["kind"], r["n"], r.get("typ"), r.get("axis")))
     verd = tracecheck.validate(ctx, "trace/SpectralTrace.tla", "trace/SpectralTrace.cfg", recs, label="spectral", jvms=4, workers=2,
                                nstates=lambda t: 3, timeout=2400)
+    ndrift = 0
     for v in verd:
         t = recs[v["index"]]
         if v["prop"]:
             report(ctx, t, v)
         elif v["impl"]:
-            ctx.spec_drift(f"{t['kind']} n={t.get('n')}: {v['impl']} differs from spec/lib/Spectral.tla (property layer holds)")
+            ndrift += 1
+            if ndrift <= 3:
+                ctx.spec_drift(f"{t['kind']} n={t.get('n')}: {v['impl']} differs from spec/lib/Spectral.tla (property layer holds)")
     ctx.sample({k: (v if k != "pos" else v[:2]) for k, v in recs[0].items()})
     ctx.sample(next(r for r in recs if r["kind"] == "maps"))
     ctx.sample(next(r for r in recs if r["kind"] == "filter"))
@@ -534,12 +538,6 @@ def run(ctx):
             if got["exc"] or got["two"] != L["fscale"]:
                 ctx.violation("fscale:FScale", f"fscale({n}) * {n} = {got['two'][:12]}.. {got['exc']}, TLC: {L['fscale'][:12]}..",
                               {"kind": "fscale", "rec": got})
-            got = maps_record(n, (), 0)
-            if got["exc"] or got["expand"] != L["expand"]:
-                # the exported map is the implementation layer's: a different but still correct map is drift, and the
-                # trace validation above has already judged the property layer on the same call
-                if not any(v["prop"] for v in verd if recs[v["index"]]["kind"] == "maps" and recs[v["index"]]["n"] == n):
-                    ctx.spec_drift(f"fexpand index map for n={n} differs from Spectral!ExpandImpl")
     for key, what, sc in numeric(ctx, rng):
         ctx.violation(key, what, sc)
     selftest(ctx)
